@@ -93,8 +93,18 @@ GridPairs == {<<f, <<r1, r2, r3>>>> : f \in GridFilters, r1, r2, r3 \in Rows}
 
 \* `*==` databases: records with id and a ref tag `a` (chains, cycles, dangling)
 Rec(id, target) == <<<<a, Ref(T(target), <<>>)>>, <<T("id"), Ref(T(id), <<>>)>>>>
-Dbs == { <<>>, <<Rec("r2", "r1")>>, <<Rec("r2", "r3"), Rec("r3", "r1")>>, <<Rec("r2", "r2")>>, <<Rec("r2", "r3"), Rec("r3", "r2")>>,
-         <<Rec("r2", "r3"), Rec("r3", "r4"), Rec("r4", "r2")>>, <<Rec("r2", "r9")>>, <<<<<<T("id"), Ref(T("r2"), <<>>)>>>>>> }
+\* every database over the ids r2 r3 r4 (and r5 when Big): each id has no record, a record without the tag, a record
+\* whose tag is no Ref, or a record pointing at the target r1, at any id (itself included) or at a dangling r9 -
+\* so every functional graph on <= 3 (4) nodes: chains, rings, tails running into rings, self loops
+WIds == IF Big THEN <<"r2", "r3", "r4", "r5">> ELSE <<"r2", "r3", "r4">>
+WChoices == {"absent", "notag", "nonref", "r1", "r9"} \cup {WIds[i] : i \in 1..Len(WIds)}
+WRec(id, ch) == CASE ch = "absent" -> <<>>
+                  [] ch = "notag" -> << <<<<T("id"), Ref(T(id), <<>>)>>>> >>
+                  [] ch = "nonref" -> << <<<<a, One>>, <<T("id"), Ref(T(id), <<>>)>>>> >>
+                  [] OTHER -> << Rec(id, ch) >>
+RECURSIVE WDb(_, _)
+WDb(f, i) == IF i > Len(WIds) THEN <<>> ELSE WRec(WIds[i], f[i]) \o WDb(f, i + 1)
+Dbs == {WDb(f, 1) : f \in [1..Len(WIds) -> WChoices]}
 WeqPairs == {<<start, db>> : start \in {<<<<a, Ref(T("r1"), <<>>)>>>>, <<<<a, Ref(T("r2"), <<>>)>>>>, <<<<a, One>>>>, <<>>}, db \in Dbs}
 
 Init == x \in (CASE Mode = "parse" -> ParseFilters [] Mode = "eval" -> EvalPairs [] Mode = "grid" -> GridPairs [] Mode = "weq" -> WeqPairs)
